@@ -181,12 +181,17 @@ func (h *eventHandlerImpl) HandleEventBatch(ctx context.Context, logger logr.Log
 		}
 		cfg.DeploymentContext = depCtx
 
+		// The NGINX Plus API can only change the servers of upstreams that NGINX already knows about.
+		// Stream upstreams are rendered only while they have endpoints, so if that set changes we need to
+		// regenerate the configuration and reload.
+		reloadNeeded := !h.cfg.plus || renderedStreamUpstreamsChanged(h.GetLatestConfiguration(), cfg)
+
 		h.setLatestConfiguration(&cfg)
 
-		if h.cfg.plus {
-			err = h.updateUpstreamServers(cfg)
-		} else {
+		if reloadNeeded {
 			err = h.updateNginxConf(ctx, cfg)
+		} else {
+			err = h.updateUpstreamServers(cfg)
 		}
 	case state.ClusterStateChange:
 		h.version++
@@ -323,6 +328,39 @@ func (h *eventHandlerImpl) updateNginxConf(
 	}
 
 	return nil
+}
+
+// renderedStreamUpstreamsChanged returns whether the set of stream upstreams that have endpoints differs between
+// the previous and the new configuration. Only stream upstreams with endpoints are written to the NGINX
+// configuration, so a change of that set cannot be applied through the NGINX Plus API alone.
+func renderedStreamUpstreamsChanged(prev *dataplane.Configuration, next dataplane.Configuration) bool {
+	rendered := func(upstreams []dataplane.Upstream) map[string]struct{} {
+		names := make(map[string]struct{}, len(upstreams))
+		for _, u := range upstreams {
+			if len(u.Endpoints) > 0 {
+				names[u.Name] = struct{}{}
+			}
+		}
+		return names
+	}
+
+	var prevNames map[string]struct{}
+	if prev != nil {
+		prevNames = rendered(prev.StreamUpstreams)
+	}
+	nextNames := rendered(next.StreamUpstreams)
+
+	if len(prevNames) != len(nextNames) {
+		return true
+	}
+
+	for name := range nextNames {
+		if _, ok := prevNames[name]; !ok {
+			return true
+		}
+	}
+
+	return false
 }
 
 // updateUpstreamServers determines which servers have changed and uses the NGINX Plus API to update them.
